@@ -1,5 +1,7 @@
 import MJ.Proofs.Num
 import MJ.Proofs.NumLex
+import MJ.Proofs.NumF
+import MJ.Gen.Tables
 /-!
 # C08 — numeric operators are exact or fail; they never wrap or lose the sign
 
@@ -451,6 +453,284 @@ theorem float_div_euclid_exact (a b : Int) (hb : b ≠ 0) :
 example : fRemEuclid (-7) 2 = 1 ∧ fDivEuclid (-7) 2 = -4 ∧ fRemEuclid 7 (-2) = 1 ∧ fDivEuclid 7 (-2) = -3 := by
   decide
 
+/-! ### Filters that do integer arithmetic: `abs`, `int`, `round`, `sum` -/
+
+/-- `x|abs`: exact (`|x|`), and it only fails on `i128::MIN`, whose absolute value is no `i128` -/
+theorem abs_exact (a r : NumRepr) (ha : a.WF) (h : absFilter a = .ok r) :
+    r.WF ∧ r.val = (a.val.natAbs : Int) := by
+  cases a with
+  | u64 n => simp only [absFilter, Res.ok.injEq] at h; subst h; exact ⟨ha, by simp [NumRepr.val]⟩
+  | u128 n => simp only [absFilter, Res.ok.injEq] at h; subst h; exact ⟨ha, by simp [NumRepr.val]⟩
+  | i64 x =>
+    have hx : -9223372036854775808 ≤ x ∧ x < 9223372036854775808 := ha
+    simp only [absFilter] at h
+    split at h
+    · rename_i hmin
+      injection h with h; subst h; subst hmin
+      exact ⟨by decide, by decide⟩
+    · injection h with h; subst h
+      refine ⟨?_, ?_⟩
+      · show -9223372036854775808 ≤ (if x < 0 then -x else x) ∧ (if x < 0 then -x else x) < 9223372036854775808
+        split <;> omega
+      · show (if x < 0 then -x else x) = (x.natAbs : Int)
+        split <;> omega
+  | i128 x =>
+    have hx : InI128 x := ha
+    unfold InI128 at hx
+    simp only [absFilter] at h
+    by_cases hmin : x = minI128
+    · rw [if_pos hmin] at h; cases h
+    · rw [if_neg hmin] at h
+      unfold minI128 at hmin
+      injection h with h; subst h
+      refine ⟨?_, ?_⟩
+      · show InI128 (if x < 0 then -x else x)
+        unfold InI128; split <;> omega
+      · show (if x < 0 then -x else x) = (x.natAbs : Int)
+        split <;> omega
+
+theorem abs_total_in_range (a : NumRepr) (_ha : a.WF) (hres : InI128 (a.val.natAbs : Int)) :
+    ∃ r, absFilter a = .ok r := by
+  cases a with
+  | u64 n => exact ⟨_, rfl⟩
+  | u128 n => exact ⟨_, rfl⟩
+  | i64 x => simp only [absFilter]; split <;> exact ⟨_, rfl⟩
+  | i128 x =>
+    simp only [absFilter]
+    by_cases hmin : x = minI128
+    · subst hmin
+      exact absurd hres (by decide)
+    · rw [if_neg hmin]; exact ⟨_, rfl⟩
+
+/-- `x|int` and `x|round` return an integer unchanged -/
+theorem int_filter_identity (a : NumRepr) : intFilter a = .ok a := rfl
+
+/-- `xs|sum`: a successful sum of integers is the exact sum (and a well-formed value) -/
+theorem sumFrom_exact (xs : List NumRepr) (acc r : NumRepr) (hacc : acc.WF) (hxs : ∀ x ∈ xs, x.WF)
+    (h : sumFrom acc xs = .ok r) : r.WF ∧ r.val = acc.val + (xs.map NumRepr.val).sum := by
+  induction xs generalizing acc with
+  | nil =>
+    simp only [sumFrom, Res.ok.injEq] at h
+    subst h
+    simp [hacc]
+  | cons x xs ih =>
+    simp only [sumFrom] at h
+    cases hadd : add acc x with
+    | err => rw [hadd] at h; cases h
+    | ok s =>
+      rw [hadd] at h
+      have hx := hxs x (List.mem_cons_self ..)
+      obtain ⟨hswf, hsval⟩ := int_op_exact .add acc x s hacc hx hadd
+      obtain ⟨hr, hv⟩ := ih s hswf (fun y hy => hxs y (List.mem_cons_of_mem _ hy)) h
+      refine ⟨hr, ?_⟩
+      rw [hv, hsval]
+      simp only [Op.denote, List.map_cons, List.sum_cons]
+      omega
+
+theorem sum_exact (xs : List NumRepr) (r : NumRepr) (hxs : ∀ x ∈ xs, x.WF) (h : sumFilter xs = .ok r) :
+    r.WF ∧ r.val = (xs.map NumRepr.val).sum := by
+  have := sumFrom_exact xs (.i64 0) r (by decide) hxs h
+  simpa [NumRepr.val] using this
+
+/-- `[a, b]|sum` succeeds whenever `a`, `b` and `a + b` fit the signed 128-bit range, and it is
+    `a + b` -/
+theorem sum_pair_total (a b : NumRepr) (ha : a.WF) (hb : b.WF) (hia : InI128 a.val) (hib : InI128 b.val)
+    (hres : InI128 (a.val + b.val)) : ∃ r, sumFilter [a, b] = .ok r ∧ r.val = a.val + b.val := by
+  have h0 : (NumRepr.i64 0).WF := by decide
+  have hi0 : InI128 (NumRepr.i64 0).val := by decide
+  obtain ⟨s, hs⟩ := int_op_total_in_range .add (.i64 0) a h0 ha hi0 hia trivial
+    (by show InI128 ((0 : Int) + a.val); rw [Int.zero_add]; exact hia)
+  obtain ⟨hswf, hsval0⟩ := int_op_exact .add _ _ _ h0 ha hs
+  have hsval : s.val = a.val := by
+    rw [hsval0]
+    show (0 : Int) + a.val = a.val
+    omega
+  obtain ⟨t, ht⟩ := int_op_total_in_range .add s b hswf hb (by rw [hsval]; exact hia) hib trivial
+    (by show InI128 (s.val + b.val); rw [hsval]; exact hres)
+  obtain ⟨_, htval⟩ := int_op_exact .add _ _ _ hswf hb ht
+  refine ⟨t, ?_, ?_⟩
+  · show sumFrom (.i64 0) [a, b] = .ok t
+    have hs' : add (.i64 0) a = .ok s := hs
+    have ht' : add s b = .ok t := ht
+    simp only [sumFrom, hs', ht']
+  · rw [htval]
+    show s.val + b.val = a.val + b.val
+    rw [hsval]
+
+example : absFilter (.i64 (-9223372036854775808)) = .ok (.i128 9223372036854775808) ∧
+    absFilter (.i128 (-170141183460469231731687303715884105728)) = .err ∧
+    sumFilter [.u64 18446744073709551615, .i64 1] = .ok (.i128 18446744073709551616) ∧
+    sumFilter [.i128 170141183460469231731687303715884105727, .i64 1] = .err := by decide
+
+/-! ### Floats
+
+A finite double is its bit pattern `b`; `F64.key b` is its exact value times `2^1074`
+(`CmpKey.numKey` extends this to integers: `n · 2^1074`).  All statements are about those exact
+values.  The rounding `encodeRat` (round to nearest, ties to even) is a total function; whenever a
+result it has to produce is itself a double (`Representable`), it is produced exactly. -/
+open MJ.F64 MJ.Val MJ.Cmp MJ.NumF MJ.CmpKey MJ.CmpNum
+
+/-- comparing the exact values -/
+def exactCmp : CmpOp → Int → Int → Bool
+  | .lt, a, b => decide (a < b)
+  | .le, a, b => decide (a ≤ b)
+  | .gt, a, b => decide (b < a)
+  | .ge, a, b => decide (b ≤ a)
+  | .eq, a, b => decide (a = b)
+  | .ne, a, b => decide (a ≠ b)
+
+/-- **comparison between integers and floats is exact**: for numbers of all five representations
+    (any `i64/u64/i128/u128`, any non-NaN double, infinities included) each of `< <= > >= == !=`
+    compares the true values -/
+theorem cmp_ops_exact (op : CmpOp) (x y : N) (hx : NumOK x) (hy : NumOK y) :
+    cmpOp op x y = exactCmp op (numKey x) (numKey y) := by
+  have hc := numSpec_wf x y hx.wf hy.wf
+  have he := eqN_iff_key x y hx hy
+  generalize numKey x = kx at *
+  generalize numKey y = ky at *
+  have hval : cmpN x y = if kx < ky then .lt else if ky < kx then .gt else .eq := by
+    rw [hc]
+    by_cases h1 : kx < ky
+    · rw [if_pos h1]; exact compare_lt_of h1
+    · rw [if_neg h1]
+      by_cases h2 : ky < kx
+      · rw [if_pos h2]; exact compare_gt_of h2
+      · rw [if_neg h2]
+        have : kx = ky := by omega
+        subst this
+        exact Int.compare_eq_eq.2 rfl
+  have heq : eqN x y = decide (kx = ky) := by
+    cases h : eqN x y with
+    | true => exact (decide_eq_true (he.1 h)).symm
+    | false =>
+      have : ¬ kx = ky := fun hk => by rw [he.2 hk] at h; cases h
+      exact (decide_eq_false this).symm
+  by_cases h1 : kx < ky
+  · rw [if_pos h1] at hval
+    cases op <;> simp only [cmpOp, exactCmp, hval, heq] <;>
+      first
+        | rfl
+        | (rw [decide_eq_true (by omega)]; rfl)
+        | (rw [decide_eq_false (by omega)]; rfl)
+        | simp
+  · rw [if_neg h1] at hval
+    by_cases h2 : ky < kx
+    · rw [if_pos h2] at hval
+      cases op <;> simp only [cmpOp, exactCmp, hval, heq] <;>
+      first
+        | rfl
+        | (rw [decide_eq_true (by omega)]; rfl)
+        | (rw [decide_eq_false (by omega)]; rfl)
+        | simp
+    · rw [if_neg h2] at hval
+      cases op <;> simp only [cmpOp, exactCmp, hval, heq] <;>
+      first
+        | rfl
+        | (rw [decide_eq_true (by omega)]; rfl)
+        | (rw [decide_eq_false (by omega)]; rfl)
+        | simp
+
+/-- `<int> as f64` is exact below `2^53` … -/
+theorem int_to_float_exact (x : Int) (hx : x.natAbs < P53) :
+    key (ofInt x) = x * (scale : Int) ∧ isFinite (ofInt x) = true := by
+  have hlog : x.natAbs.log2 < 1000 := by
+    by_cases h0 : x.natAbs = 0
+    · rw [h0]; decide
+    · have : x.natAbs.log2 < 53 :=
+        (Nat.log2_lt h0).2 (by rw [show (2 : Nat) ^ 53 = P53 by decide]; exact hx)
+      omega
+  obtain ⟨_, hf, hk⟩ := ofInt_spec x hlog
+  refine ⟨?_, hf⟩
+  rw [hk]
+  congr 1
+  unfold rndI
+  rw [rnd_small _ hx]
+  split <;> omega
+
+/-- … and everywhere on the 128-bit ranges the result is the finite double `rndI x`, the rounding
+    of `x` (`rnd_half_ulp`: within half a unit in the last place; `rnd_tie_even`: ties to even;
+    C07's `rnd_above`/`rnd_below`: no double strictly between `x` and it) -/
+theorem int_to_float_rounded (x : Int) (hx : x.natAbs < 2 ^ 129) :
+    key (ofInt x) = rndI x * (scale : Int) ∧ isFinite (ofInt x) = true := by
+  obtain ⟨_, hf, hk⟩ := ofInt_spec x (log2_small _ hx)
+  exact ⟨hk, hf⟩
+
+/-- unary minus and `abs` on floats are exact -/
+theorem float_neg_exact (b : Nat) : key (fneg b) = -key b := key_fneg b
+theorem float_abs_exact (b : Nat) : key (fabs b) = ((key b).natAbs : Int) := key_fabs b
+
+/-- `x|int` of a float: the exact truncation, or an error — never a saturated neighbour -/
+theorem int_of_float_exact (b : Nat) (r : NumRepr) (h : intOfFloat b = .ok r) :
+    r.WF ∧ r.val = truncInt b ∧ isFinite b = true := by
+  unfold intOfFloat at h
+  split at h
+  · rename_i hc
+    injection h with h; subst h
+    exact ⟨hc.2, rfl, hc.1⟩
+  · cases h
+
+theorem int_of_float_total (b : Nat) (hf : isFinite b = true) (hr : InI128 (truncInt b)) :
+    ∃ r, intOfFloat b = .ok r := by
+  unfold intOfFloat
+  rw [if_pos ⟨hf, hr⟩]
+  exact ⟨_, rfl⟩
+
+/-- rounding is the identity on doubles -/
+theorem round_representable (m : Nat) (hm : m < infMag) : encodeRat (scaledOfMag m) 1 = m :=
+  encodeRat_exact m hm
+
+/-- **float `%`**: when the remainder it has to produce is a double, `a % b` is the Euclidean
+    remainder of the exact values, `0 ≤ r < |b|` -/
+theorem float_rem_exact (a b : Nat) (hb : key b ≠ 0)
+    (h1 : Representable (scaled a % scaled b)) (h2 : Representable (key a % key b).natAbs) :
+    key (fremEuclid a b) = key a % key b ∧ 0 ≤ key (fremEuclid a b) ∧
+      key (fremEuclid a b) < ((key b).natAbs : Int) ∧ isFinite (fremEuclid a b) = true := by
+  have hR := fRemEuclid_eq_emod (key a) (key b) hb
+  obtain ⟨hr, hf⟩ := key_fremEuclid a b h1 (by rw [hR]; exact h2)
+  rw [hR] at hr
+  rw [hr]
+  exact ⟨rfl, Int.emod_nonneg _ hb, Int.emod_lt _ hb, hf⟩
+
+/-- **float `//`**: when remainder, `a - r` and the quotient (`|q| < 2^53`) are doubles, `a // b`
+    is the Euclidean quotient of the exact values, and the law `(a // b) * b + a % b = a` holds
+    exactly -/
+theorem float_div_exact (a b : Nat) (hb : key b ≠ 0)
+    (h1 : Representable (scaled a % scaled b)) (h2 : Representable (key a % key b).natAbs)
+    (h3 : Representable (key a - key a % key b).natAbs) (h4 : (key a / key b).natAbs < P53) :
+    ∃ q : Int, key (fdivEuclid a b) = q * (scale : Int) ∧
+      q * key b + key (fremEuclid a b) = key a ∧ isFinite (fdivEuclid a b) = true := by
+  obtain ⟨hq, hf⟩ := key_fdivEuclid a b hb h1 h2 h3 h4
+  obtain ⟨hr, _⟩ := float_rem_exact a b hb h1 h2
+  exact ⟨key a / key b, hq, by rw [hr]; exact Int.ediv_mul_add_emod _ _, hf⟩
+
+-- non-vacuity on concrete doubles: `-7.0 % 2.0 = 1.0`, `-7.0 // 2.0 = -4.0`, `1.0 // 0.1 = 9.0`,
+-- `2^53 + 1` converts to `2^53` (tie to even), `2^63 - 1` compares below the double `2^63`
+set_option exponentiation.threshold 3000 in
+set_option maxRecDepth 100000 in
+example : fremEuclid 0xc01c000000000000 0x4000000000000000 = 0x3ff0000000000000 ∧
+    fdivEuclid 0xc01c000000000000 0x4000000000000000 = 0xc010000000000000 ∧
+    fdivEuclid 0x3ff0000000000000 0x3fb999999999999a = 0x4022000000000000 ∧
+    ofInt 9007199254740993 = 0x4340000000000000 ∧
+    cmpOp .lt (.i64 9223372036854775807) (.f64 0x43e0000000000000) = true ∧
+    cmpOp .eq (.u64 18446744073709551615) (.f64 0x43f0000000000000) = false := by decide
+
+-- the hypotheses of `float_rem_exact` / `float_div_exact` are satisfiable: `-7.0` and `2.0`
+-- (remainder `1.0`, `a - r = -8.0`, quotient `-4`)
+set_option exponentiation.threshold 3000 in
+set_option maxRecDepth 100000 in
+example : ∃ q : Int, key (fdivEuclid 0xc01c000000000000 0x4000000000000000) = q * (scale : Int) ∧
+    q * key 0x4000000000000000 + key (fremEuclid 0xc01c000000000000 0x4000000000000000) =
+      key 0xc01c000000000000 ∧
+    isFinite (fdivEuclid 0xc01c000000000000 0x4000000000000000) = true :=
+  float_div_exact 0xc01c000000000000 0x4000000000000000 (by decide)
+    ⟨0x3ff0000000000000, by decide, by decide⟩ ⟨0x3ff0000000000000, by decide, by decide⟩
+    ⟨0x4020000000000000, by decide, by decide⟩ (by decide)
+
+example : cmpOp .lt (.i128 (-9007199254740993)) (.f64 0xc340000000000000) =
+    exactCmp .lt (numKey (.i128 (-9007199254740993))) (numKey (.f64 0xc340000000000000)) :=
+  cmp_ops_exact .lt _ _ ⟨by simp only [N.WF, i128Min, i128Max]; decide, trivial⟩
+    ⟨by simp only [N.WF, P64]; decide, by decide⟩
+
 /-! ### Integer literals: every spelling denotes its value
 
 `eatNumber` is the model of `Tokenizer::eat_number`.  A literal is an optional radix prefix
@@ -573,5 +853,30 @@ example : eatNumber "0x10000000000000000 + 1".toList = (.int128 1844674407370955
     eatNumber "1.foo".toList = (.int 1, ".foo".toList) ∧
     (eatNumber "0b12".toList).1 = .err ∧ (eatNumber "1_".toList).1 = .err ∧
     (eatNumber "340282366920938463463374607431768211456".toList).1 = .err := by decide
+
+/-! ### Source facts the model duplicates
+
+`MJ.Gen.*` is regenerated from /repo's sources on every run (`lib/tables/c08.py`); when one of
+these facts changes in the source, the theorem fails to build and the tie is reported broken. -/
+
+/-- the operand `ops::neg` special-cases is `2^127` (`MIN_I128_AS_POS_U128`) -/
+theorem tie_neg_special : MJ.Gen.negSpecialU128 = 170141183460469231731687303715884105728 := by decide
+
+/-- each integer operator still goes through the overflow-aware `i128` method the model assumes -/
+theorem tie_int_methods : MJ.Gen.intOpMethods =
+    [("add", ["checked_add"]), ("int_div", ["checked_div_euclid"]), ("mul", ["checked_mul"]),
+     ("neg", ["checked_mul"]), ("pow", ["checked_pow"]), ("rem", ["checked_rem_euclid"]),
+     ("sub", ["checked_sub"])] := by decide
+
+/-- the lexer's prefix table is the one `detectRadix` implements, the default radix is 10 -/
+theorem tie_lex_radix :
+    (∀ p ∈ MJ.Gen.lexRadixPrefixes, detectRadix (p.1.toList ++ ['1']) = (p.2, ['1'])) ∧
+    MJ.Gen.lexRadixPrefixes.length = 6 ∧ MJ.Gen.lexDefaultRadix = 10 ∧
+    (detectRadix ['1']).1 = MJ.Gen.lexDefaultRadix := by decide
+
+/-- integers are parsed by `u64::from_str_radix(&num, radix)` then `u128::from_str_radix(&num,
+    radix)`; only the float branch uses the radix-less `str::parse` -/
+theorem tie_lex_parsers : MJ.Gen.lexIntParsers = [("u64", "radix"), ("u128", "radix")] ∧
+    MJ.Gen.lexPlainParsers = ["Float"] := by decide
 
 end MJ.C08
